@@ -1,11 +1,98 @@
 (* C17 Graph ordering and subgraph-merging algorithms are correct.
    This file contains only the property theorems; each is closed by an exact/apply of a
-   lemma proved under GraphAlg/ and followed by Print Assumptions. *)
-From Coq Require Import List NArith.
-From HV Require Import GraphAlg.Model GraphAlg.PUf.
+   lemma proved under GraphAlg/ and followed by Print Assumptions (+ non-vacuity Examples). *)
+From Coq Require Import List NArith Permutation.
+From HV Require Import GraphAlg.Model GraphAlg.PUf GraphAlg.PTopo.
 Import ListNotations.
+Open Scope N_scope.
 
-(* UnionFind::find terminates on EVERY parent map (reachable or not): the fuel of [uf_find] suffices *)
+(* ---------------------------------------------------------------- topo_sort *)
+
+(* Ok order: every node listed, no duplicates, every predecessor strictly before its successor,
+   nothing outside any predecessor-closed set containing the nodes *)
+Theorem C17_topo_sort_ok : forall preds fuel nodes o,
+  topo_sort_fuel preds fuel nodes = TOk o ->
+  NoDup o /\ incl nodes o /\ tsorted preds o /\
+  (forall s p, In s o -> In p (preds s) -> before p s o) /\
+  (forall U : N -> Prop, (forall x p, U x -> In p (preds x) -> U p) ->
+                         (forall x, In x nodes -> U x) -> forall x, In x o -> U x).
+Proof. exact topo_sort_ok. Qed.
+Print Assumptions C17_topo_sort_ok.
+
+(* on a closed duplicate-free graph the order is a permutation of the nodes *)
+Theorem C17_topo_sort_ok_perm : forall preds fuel nodes o,
+  NoDup nodes -> (forall x p, In x nodes -> In p (preds x) -> In p nodes) ->
+  topo_sort_fuel preds fuel nodes = TOk o -> Permutation o nodes.
+Proof. exact topo_sort_ok_perm. Qed.
+Print Assumptions C17_topo_sort_ok_perm.
+
+(* Err: a non-empty duplicate-free genuine cycle, reachable from the nodes *)
+Theorem C17_topo_sort_cycle : forall preds fuel nodes c,
+  topo_sort_fuel preds fuel nodes = TErr c ->
+  is_cycle preds c /\ forall x, In x c -> reach preds nodes x.
+Proof. exact topo_sort_err_reachable. Qed.
+Print Assumptions C17_topo_sort_cycle.
+
+(* fuel bound: OutOfFuel is impossible when the fuel exceeds the length of any
+   predecessor-closed list containing the nodes; in particular [topo_sort] on closed graphs
+   and [topo_sort_adj] on every association-list graph *)
+Theorem C17_topo_sort_fuel : forall preds fuel nodes (L : list N),
+  (forall x p, In x L -> In p (preds x) -> In p L) -> incl nodes L -> (length L < fuel)%nat ->
+  topo_sort_fuel preds fuel nodes <> TFuel.
+Proof. exact topo_sort_fuel_ok. Qed.
+Print Assumptions C17_topo_sort_fuel.
+
+Theorem C17_topo_sort_adj_total : forall nodes adj, topo_sort_adj nodes adj <> TFuel.
+Proof. exact topo_sort_adj_no_fuel. Qed.
+Print Assumptions C17_topo_sort_adj_total.
+
+(* Ok exactly when no cycle is reachable from the nodes *)
+Theorem C17_topo_sort_ok_iff_acyclic : forall preds fuel nodes (L : list N),
+  (forall x p, In x L -> In p (preds x) -> In p L) -> incl nodes L -> (length L < fuel)%nat ->
+  ((exists o, topo_sort_fuel preds fuel nodes = TOk o) <->
+   ~ exists c, is_cycle preds c /\ forall x, In x c -> reach preds nodes x).
+Proof. exact topo_sort_ok_iff_acyclic. Qed.
+Print Assumptions C17_topo_sort_ok_iff_acyclic.
+
+Example C17_topo_ok_nonvacuous :
+  topo_sort_adj [3; 2; 1; 0] [(3, [1; 2]); (1, [0]); (2, [0])] = TOk [0; 1; 2; 3].
+Proof. vm_compute. reflexivity. Qed.
+Example C17_topo_cycle_nonvacuous :
+  topo_sort_adj [0; 1; 2; 3] [(1, [0; 3]); (2, [1]); (3, [2])] = TErr [2; 3; 1].
+Proof. vm_compute. reflexivity. Qed.
+
+(* ---------------------------------------------------------------- union-find *)
+
+(* find terminates on EVERY parent map (reachable or not): the fuel of [uf_find] suffices *)
 Theorem C17_uf_find_terminates : forall m k, uf_find_fuel (S (length m)) m k <> None.
 Proof. exact uf_find_fuel_ok. Qed.
 Print Assumptions C17_uf_find_terminates.
+
+(* every state reachable by a history of union / find / same_set calls satisfies the invariant *)
+Theorem C17_uf_reachable_inv : forall ops, exists f, UFInv (uf_exec [] ops) f.
+Proof. exact uf_reachable_inv. Qed.
+Print Assumptions C17_uf_reachable_inv.
+
+(* same_set = equivalence closure of the unions performed, after any history *)
+Theorem C17_uf_same_set_spec : forall ops a b,
+  snd (uf_same (uf_exec [] ops) a b) = true <-> eqcl (fun x y => In (x, y) (unions_of ops)) a b.
+Proof. exact uf_same_set_spec. Qed.
+Print Assumptions C17_uf_same_set_spec.
+
+(* find returns the representative and does not change the partition (path compression is invisible) *)
+Theorem C17_uf_find_correct : forall m f k,
+  UFInv m f -> UFInv (fst (uf_find m k)) f /\ snd (uf_find m k) = f k.
+Proof. exact uf_find_correct. Qed.
+Print Assumptions C17_uf_find_correct.
+
+(* the first argument's root survives union and represents both arguments afterwards *)
+Theorem C17_uf_union_keeps_first_root : forall m f a b,
+  UFInv m f ->
+  let '(m', i) := uf_union m a b in i = uf_root m a /\ uf_root m' a = i /\ uf_root m' b = i.
+Proof. exact uf_union_keeps_first_root. Qed.
+Print Assumptions C17_uf_union_keeps_first_root.
+
+Example C17_uf_nonvacuous :
+  let m := uf_exec [] [UUnion 0 1; UUnion 2 0; UFind 1; UUnion 4 5] in
+  snd (uf_same m 1 2) = true /\ snd (uf_same m 1 4) = false /\ uf_root m 1 = 2.
+Proof. vm_compute. repeat split. Qed.
